@@ -1,7 +1,10 @@
 (* Prints, per table, the elements on which the REGENERATED table and the list of the standard (with the named
    exceptions of TreeTables/Deviations.v applied) differ.  Always compiles (definitions + Eval only);
    lib/treetables.py reads the output to name the failing table and cells when Inst/InstTreeTables.v breaks.
-   Output format per table:  ("name", (only in html5ever, only in the standard)). *)
+   Output format per table:  ("name", (only in html5ever, only in the standard)).
+   "FAILING ..." groups: differences that are NOT covered by a named exception (Inst/InstTreeTables.v is broken);
+   "STALE ..." groups: a named exception is no longer exactly present (Inst/FindingsTreeTables.v is broken,
+   e.g. because html5ever repaired the deviation). *)
 From Coq Require Import String List Bool Arith.
 From HV Require Import TreeTables.Types TreeTables.TableChecks TreeTables.WhatwgLists TreeTables.WhatwgDispatch
   TreeTables.Deviations TreeTables.Quirks Gen.GenTagSets Gen.GenQuirks Gen.GenAdjust Gen.GenDispatch.
@@ -15,11 +18,19 @@ Context {A : Type} (e : A -> A -> bool).
 Definition expected (std extra missing : list A) : list A := diff e std missing ++ extra.
 Definition wit (gen std extra missing : list A) : list A * list A :=
   (diff e gen (expected std extra missing), diff e (expected std extra missing) gen).
+(* differences outside the exceptions *)
+Definition rwit (gen std extra missing : list A) : list A * list A :=
+  (diff e (diff e gen std) (extra ++ missing), diff e (diff e std gen) (extra ++ missing)).
+Definition both (gen std extra missing : list A) := (rwit gen std extra missing, wit gen std extra missing).
+(* ordered comparison: when the two lists have the same elements in a different order, both lists are printed *)
+Definition owit (gen std : list A) : list A * list A :=
+  if list_eqb e gen std then ([], [])
+  else match wit gen std [] [] with ([], []) => (gen, std) | w => w end.
 End W.
-Definition ew := wit ename_eqb.
-Definition sw := wit String.eqb.
+Definition ew := both ename_eqb.
+Definition sw := both String.eqb.
 
-Definition W_tag_sets : list (string * (list ename * list ename)) := [
+Definition W_tag_sets := [
   ("special_tag_is_whatwg_except", ew ts_special_tag whatwg_special special_extra special_missing);
   ("default_scope_is_whatwg_except", ew ts_default_scope whatwg_scope [] scope_missing);
   ("list_item_scope_is_whatwg_except", ew ts_list_item_scope whatwg_list_item_scope [] scope_missing);
@@ -46,7 +57,7 @@ Definition W_tag_sets : list (string * (list ename * list ename)) := [
   ("table_body_sections_is_whatwg_except", ew ts_step_InTableBody__table_outer whatwg_table_body_sections table_body_sections_extra table_body_sections_missing);
   ("foreign_font_attrs_is_whatwg", ew foreign_font_attrs whatwg_breakout_font_attrs [] [])].
 
-Definition W_string_sets : list (string * (list string * list string)) := [
+Definition W_string_sets := [
   ("quirky_public_prefixes_is_whatwg_except", sw quirky_public_prefixes (map lower whatwg_quirks_public_prefixes) [] quirks_prefix_missing);
   ("quirky_public_matches_is_whatwg", sw quirky_public_matches (map lower whatwg_quirks_public_ids) [] []);
   ("quirky_system_matches_is_whatwg", sw quirky_system_matches (map lower whatwg_quirks_system_ids) [] []);
@@ -60,7 +71,7 @@ Definition W_string_sets : list (string * (list string * list string)) := [
   ("annotation_xml_integration_point_is_whatwg", sw annotation_xml_encodings whatwg_annotation_xml_encodings [] []);
   ("ser_void_elements_is_whatwg", sw ser_void_elements whatwg_serializes_as_void [] []);
   ("ser_void_elements_is_whatwg_void_plus_obsolete", sw ser_void_elements whatwg_void_elements whatwg_serializes_as_void_only []);
-  ("legacy_select_modes_absent", (filter (fun m => smem m insertion_modes) legacy_insertion_modes_extra, []));
+  ("legacy_select_modes_absent", ((filter (fun m => smem m insertion_modes) legacy_insertion_modes_extra, []), ([], [])));
   ("ser_rawtext_parents_is_whatwg", sw ser_rawtext_parents whatwg_ser_rawtext_parents [] []);
   ("ser_rawtext_parents_if_scripting_is_whatwg", sw ser_rawtext_parents_if_scripting whatwg_ser_rawtext_parents_if_scripting [] []);
   ("insertion_modes_is_whatwg", sw insertion_modes whatwg_insertion_modes [] []);
@@ -72,8 +83,8 @@ Definition W_string_sets : list (string * (list string * list string)) := [
 
 Definition W_string_maps : list (string * (list (string * string) * list (string * string))) := [
   ("svg_tag_adjust_is_whatwg", wit (pair_eqb String.eqb String.eqb) svg_tag_adjust whatwg_svg_tag_adjust [] [])].
-Definition sqw := wit (pair_eqb String.eqb qname_eqb).
-Definition W_qname_maps : list (string * (list (string * qname) * list (string * qname))) := [
+Definition sqw := both (pair_eqb String.eqb qname_eqb).
+Definition W_qname_maps := [
   ("svg_attr_adjust_is_whatwg", sqw svg_attr_adjust whatwg_svg_attr_adjust [] []);
   ("mathml_attr_adjust_is_whatwg", sqw mathml_attr_adjust whatwg_mathml_attr_adjust [] []);
   ("foreign_attr_adjust_is_whatwg_except", sqw foreign_attr_adjust whatwg_foreign_attr_adjust foreign_attr_extra foreign_attr_missing)].
@@ -81,13 +92,17 @@ Definition W_tokstate : list (string * (list (string * tsel) * list (string * ts
   ("tokstate_for_context_is_whatwg", wit (pair_eqb String.eqb tsel_eqb) tokstate_for_context whatwg_tokstate_for_context [] [])].
 Definition reset_arm_eqb : list string * string * string -> list string * string * string -> bool :=
   pair_eqb (pair_eqb (fun a b => set_eqb String.eqb a b) String.eqb) String.eqb.
-Definition W_reset := [("reset_mode_arms_is_whatwg", wit reset_arm_eqb reset_mode_arms whatwg_reset_mode_steps [] [])].
+Definition W_reset := [("reset_mode_arms_is_whatwg", owit reset_arm_eqb reset_mode_arms whatwg_reset_mode_steps)].
 Definition W_quirks_arms :=
   [("quirks_arms_are_whatwg_modulo_srcdoc",
-    wit qarm_eqb (filter not_srcdoc quirks_arms) (filter not_srcdoc whatwg_quirks_decision) [] [])].
+    owit qarm_eqb (filter not_srcdoc quirks_arms) (filter not_srcdoc whatwg_quirks_decision))].
+Definition W_stale_srcdoc :=
+  [("quirks_arms_srcdoc_position",
+    if list_eqb Bool.eqb (map (fun a => qcond_eqb (fst a) QcSrcdoc) (firstn 3 quirks_arms)) [false; false; true]
+    then ([], []) else (quirks_arms, whatwg_quirks_decision))].
 Definition doctype_triple_eqb := pair_eqb (pair_eqb (opt_eqb String.eqb) (opt_eqb String.eqb)) (opt_eqb String.eqb).
 Definition W_doctype_ok :=
-  [("doctype_ok_triples_is_whatwg_except", wit doctype_triple_eqb doctype_ok_triples whatwg_doctype_ok_triples doctype_ok_extra [])].
+  [("doctype_ok_triples_is_whatwg_except", both doctype_triple_eqb doctype_ok_triples whatwg_doctype_ok_triples doctype_ok_extra [])].
 
 Fixpoint assoc_cases (d : list (string * list scase)) (m : string) : list scase :=
   match d with [] => [] | (n, a) :: t => if String.eqb n m then a else assoc_cases t m end.
@@ -102,17 +117,26 @@ Definition nonempty2 {A B} (x : string * (list A * list B)) : bool :=
   match snd x with ([], []) => false | _ => true end.
 Definition nonempty3 {A B C} (x : string * (list A * list B * list C)) : bool :=
   match snd x with ([], [], []) => false | _ => true end.
+Definition robust {A} (l : list (string * ((list A * list A) * (list A * list A)))) :=
+  filter nonempty2 (map (fun x => (fst x, fst (snd x))) l).
+Definition stale {A} (l : list (string * ((list A * list A) * (list A * list A)))) :=
+  filter nonempty2 (map (fun x => (fst x, snd (snd x))) l).
 
 (* only the failing entries are printed *)
-Eval vm_compute in ("FAILING tag sets", filter nonempty2 W_tag_sets).
-Eval vm_compute in ("FAILING string sets", filter nonempty2 W_string_sets).
+Eval vm_compute in ("FAILING tag sets", robust W_tag_sets).
+Eval vm_compute in ("FAILING string sets", robust W_string_sets).
 Eval vm_compute in ("FAILING string maps", filter nonempty2 W_string_maps).
-Eval vm_compute in ("FAILING qname maps", filter nonempty2 W_qname_maps).
+Eval vm_compute in ("FAILING qname maps", robust W_qname_maps).
 Eval vm_compute in ("FAILING tokstate", filter nonempty2 W_tokstate).
 Eval vm_compute in ("FAILING reset", filter nonempty2 W_reset).
 Eval vm_compute in ("FAILING quirks arms", filter nonempty2 W_quirks_arms).
-Eval vm_compute in ("FAILING doctype ok", filter nonempty2 W_doctype_ok).
+Eval vm_compute in ("FAILING doctype ok", robust W_doctype_ok).
 Eval vm_compute in ("FAILING census", filter nonempty3 W_census).
 Eval vm_compute in ("FAILING split discipline", W_split).
+Eval vm_compute in ("STALE tag sets", stale W_tag_sets).
+Eval vm_compute in ("STALE string sets", stale W_string_sets).
+Eval vm_compute in ("STALE qname maps", stale W_qname_maps).
+Eval vm_compute in ("STALE doctype ok", stale W_doctype_ok).
+Eval vm_compute in ("STALE srcdoc position", filter nonempty2 W_stale_srcdoc).
 Eval vm_compute in ("SIZES", (length ts_special_tag, length quirky_public_prefixes, length svg_tag_adjust, length svg_attr_adjust,
                               length dispatch, length (flat_map snd dispatch))).
